@@ -32,6 +32,15 @@ type c03Case struct {
 	// also holds facts (for e and for some of the p_i, before and after their rules, placed by this PRNG seed); Stratify
 	// is then called on the predicate sets and rules of the resulting ProgramInfo, as the engine does.
 	Via int64 `json:"via,omitempty"`
+	// Leaves: mentions of predicates that are neither extensional nor intensional for the submitted program (no
+	// facts, no rules): leaf nodes of the dependency graph without an entry of their own.
+	Leaves []c03Leaf `json:"leaves,omitempty"`
+}
+
+type c03Leaf struct {
+	Head int  `json:"head"` // the rule of p<Head> that mentions the leaf
+	Leaf int  `json:"leaf"` // u<Leaf>
+	Neg  bool `json:"neg"`
 }
 
 type c03 struct{}
@@ -51,7 +60,7 @@ func (c03) Cases(tier string) int {
 func (c03) Describe() core.Info {
 	return core.Info{
 		Level: "exploration",
-		Rule: "calls to analysis.Stratify on synthetic rule sets (directly, or - a third of the graphs without temporal mentions - through analysis.AnalyzeOneUnit of a source unit that also holds facts for e and for some of the p_i, placed before and after their rules, with Stratify then called on the ProgramInfo's predicate sets and rules as the engine does) realising a chosen labelling {absent, positive, negative-by-negation, negative-by-aggregation} of every ordered predicate pair (self loops included), each positive/aggregated mention either plain or inside a TemporalLiteral (with or without operator); in half of the sampled graphs 1-3 pairs are mentioned again with another polarity (same rule, another rule of the same head, or the aggregating rule) and in half the rule list is shuffled, so that the strongest mention may come first or last; 3-8 predicates; every graph submitted 3 times (map-order variation). The thorough tier first enumerates all 3^9 labellings on 3 predicates (observed counter enumerated_3pred_labellings; negative realisation and temporal wrapping drawn from the PRNG), then samples. Oracle: own Tarjan SCC over the generated edge list; failure expected iff a negative edge lies inside an SCC; on success layers must be a partition containing every rule head, list and map must agree, every dependency must point to the same or an earlier layer (strictly earlier if negative), SCC mates share a layer. Non-trivial: >= 2 SCCs or a negative edge; distinct by labelled graph.",
+		Rule: "calls to analysis.Stratify on synthetic rule sets (directly, or - a third of the graphs without temporal mentions - through analysis.AnalyzeOneUnit of a source unit that also holds facts for e and for some of the p_i, placed before and after their rules, with Stratify then called on the ProgramInfo's predicate sets and rules as the engine does) realising a chosen labelling {absent, positive, negative-by-negation, negative-by-aggregation} of every ordered predicate pair (self loops included), each positive/aggregated mention either plain or inside a TemporalLiteral (with or without operator); in half of the sampled graphs 1-3 pairs are mentioned again with another polarity (same rule, another rule of the same head, or the aggregating rule) and in half the rule list is shuffled, so that the strongest mention may come first or last; 3-8 predicates; a third of the directly submitted graphs also mention 1-3 predicates that have neither facts nor rules (leaf nodes without an entry of their own in the dependency graph); every graph submitted 3 times (map-order variation). The thorough tier first enumerates all 3^9 labellings on 3 predicates (observed counter enumerated_3pred_labellings; negative realisation and temporal wrapping drawn from the PRNG), then samples. Oracle: own Tarjan SCC over the generated edge list; failure expected iff a negative edge lies inside an SCC; on success layers must be a partition containing every rule head, list and map must agree, every dependency must point to the same or an earlier layer (strictly earlier if negative), SCC mates share a layer. Non-trivial: >= 2 SCCs or a negative edge; distinct by labelled graph.",
 		Assumptions: []string{"negation inside a temporal literal is not producible by the parser and not generated"},
 	}
 }
@@ -122,6 +131,11 @@ func (c03) Gen(r *rand.Rand, tier string, i int) any {
 		}
 	}
 	if r.Intn(3) == 0 {
+		for k := 1 + r.Intn(3); k > 0; k-- {
+			c.Leaves = append(c.Leaves, c03Leaf{Head: r.Intn(c.N), Leaf: r.Intn(3), Neg: r.Intn(3) == 0})
+		}
+	}
+	if r.Intn(3) == 0 && len(c.Leaves) == 0 {
 		temporal := false
 		for _, e := range c.Edges {
 			temporal = temporal || e.Temporal
@@ -190,6 +204,16 @@ func c03Program(c c03Case) analysis.Program {
 				plain = append(plain, lit)
 			} else {
 				extra[e.Rule] = append(extra[e.Rule], lit)
+			}
+		}
+		for _, lf := range c.Leaves {
+			if lf.Head == i {
+				a := ast.Atom{Predicate: ast.PredicateSym{Symbol: fmt.Sprintf("u%d", lf.Leaf), Arity: 1}, Args: []ast.BaseTerm{x}}
+				if lf.Neg {
+					plain = append(plain, ast.NegAtom{Atom: a})
+				} else {
+					plain = append(plain, a)
+				}
 			}
 		}
 		prog.Rules = append(prog.Rules, ast.Clause{Head: head, Premises: plain})
@@ -385,7 +409,7 @@ func (c03) Run(cs any) core.Result {
 	c := cs.(c03Case)
 	var res core.Result
 	res.Evals = 3
-	res.Key = core.HashKey(fmt.Sprint(c.N, c.Edges, c.Perm, c.Via))
+	res.Key = core.HashKey(fmt.Sprint(c.N, c.Edges, c.Perm, c.Via, c.Leaves))
 	adj := make([][]int, c.N)
 	hasNeg, hasTemporal := false, false
 	for _, e := range c.Edges {
